@@ -230,7 +230,74 @@ fn sweep(run: &Run) {
     );
 }
 
+/// Time clause: long words whose tails are all known suffixes (the shape that makes the suffix
+/// look-up walk every split), repeated letters and random letters, 56 keys each.  The unchanged
+/// engine needs milliseconds per key; one call above 8 s is a blow-up (a factor ~1000 above normal),
+/// reported with the timing curve.  Anything slower still hits the 30 s watchdog (exit 2).
+fn long_words(run: &Run) {
+    let sk = &gen::pools().suffix_keys;
+    let mut words: Vec<String> = vec![];
+    let short: Vec<&String> = sk.iter().filter(|k| k.len() <= 2).collect();
+    for (i, start) in ["amar", "kotha", "boi", "a", "computer"].iter().enumerate() {
+        // chains of short suffix keys: every tail is again a concatenation of suffix keys
+        for j in 0..3 {
+            let mut w = start.to_string();
+            let mut n = 0;
+            while w.len() < 56 {
+                let k = short[(hash_of(&(i, j, n)) as usize) % short.len()];
+                w.push_str(k);
+                n += 1;
+            }
+            w.truncate(56);
+            words.push(w);
+        }
+        let mut w = start.to_string();
+        while w.len() < 56 {
+            w.push_str("er");
+        }
+        words.push(w);
+    }
+    for c in ["o", "k", "a", "rri", "ng", "`", ".", "1"] {
+        words.push(c.repeat(56 / c.len()));
+    }
+    for i in 0..6u64 {
+        let letters: Vec<char> = "aeioukhgnrtsdlmbpcjyzwOTDNSR".chars().collect();
+        words.push((0..56).map(|j| letters[(hash_of(&(i, j)) as usize) % letters.len()]).collect());
+    }
+    let items: Vec<(usize, String)> = ["sq", "sqe", "q", "Pfe", "Sfvckro"].iter().enumerate().flat_map(|(oi, _)| words.iter().cloned().map(move |w| (oi, w))).collect();
+    let optsets = ["sq", "sqe", "q", "Pfe", "Sfvckro"];
+    run.exhaustive(
+        "long-words-time-bound",
+        &items,
+        |_| (),
+        |(oi, w), st, _| {
+            let opts = Opts::parse(optsets[*oi]);
+            let sb = Sandbox::new();
+            let ctx = Ctx::new(opts, &sb).map_err(|p| Failure::new(panic_kind(&p), p.to_string(), json!({"opts": opts.letters()})))?;
+            let mut times: Vec<u128> = vec![];
+            for (n, c) in w.chars().enumerate() {
+                let t0 = std::time::Instant::now();
+                ctx.ch(c, 0).map_err(|p| Failure::new(panic_kind(&p), format!("long word {w:?} key #{n}: {p}"), json!({"opts": opts.letters(), "long_word": w})))?;
+                let ms = t0.elapsed().as_millis();
+                times.push(ms);
+                if ms > 8000 {
+                    return Err(Failure::new(
+                        "call-time-blow-up",
+                        format!("typing {w:?} ({}): key #{n} took {ms} ms; per-key milliseconds so far {:?}", opts.letters(), times),
+                        json!({"opts": opts.letters(), "long_word": w}),
+                    ));
+                }
+            }
+            st.count("long-word-keys", w.chars().count() as u64);
+            st.count("long-word-calls-over-100ms", times.iter().filter(|t| **t > 100).count() as u64);
+            st.label("long-word-typed");
+            Ok(())
+        },
+    );
+}
+
 pub fn run(run: &Run) {
+    long_words(run);
     sweep(run);
     let (shards, cases) = match run.tier {
         Tier::Quick => (16, 700),
@@ -255,6 +322,18 @@ pub fn run(run: &Run) {
 
 pub fn replay(_run: &Run, case: &Value) -> Result<(), Failure> {
     let opts = Opts::parse(case["opts"].as_str().unwrap_or_default());
+    if let Some(w) = case["long_word"].as_str() {
+        let sb = Sandbox::new();
+        let ctx = Ctx::new(opts, &sb).map_err(|p| Failure::new(panic_kind(&p), p.to_string(), case.clone()))?;
+        for (n, c) in w.chars().enumerate() {
+            let t0 = std::time::Instant::now();
+            ctx.ch(c, 0).map_err(|p| Failure::new(panic_kind(&p), p.to_string(), case.clone()))?;
+            if t0.elapsed().as_millis() > 8000 {
+                return Err(Failure::new("call-time-blow-up", format!("key #{n} took {} ms", t0.elapsed().as_millis()), case.clone()));
+            }
+        }
+        return Ok(());
+    }
     if let Some(sw) = case["sweep"].as_array() {
         let sb = Sandbox::new();
         let ctx = Ctx::new(opts, &sb).map_err(|p| Failure::new(panic_kind(&p), p.to_string(), case.clone()))?;
